@@ -38,7 +38,9 @@ BLOBS = {
 }
 _BLOB_BY_SHA = {hashlib.sha1(v).hexdigest(): k for k, v in BLOBS.items()}
 
-AMBIENT = {"runtime.jdk": "17", "runtime.jdk.bundled": "true"}  # BareProvisioner.prepare requires them (mandatory_var)
+# BareProvisioner.prepare / DockerProvisioner.prepare require them (mandatory_var)
+AMBIENT = {"runtime.jdk": "17", "runtime.jdk.bundled": "true", "docker_image": "docker.elastic.co/elasticsearch/elasticsearch"}
+DOCKER_HOME = "/usr/share/elasticsearch"
 
 
 def S(x):
@@ -70,6 +72,10 @@ class Layout:
             self.node_roots.append(nr)
             self.es_homes.append(os.path.join(nr, "install", ES_DIR))
             self.tokens += [(self.es_homes[-1], "$ES%d" % j), (nr, "$NODE%d" % j)]
+        # the node provisioned with the Docker provisioner from the same car: provisioner.docker(cfg, car, ip, port, <race root>, name)
+        self.dnode_name = "rally-docker"
+        self.dnode = os.path.join(self.race, self.dnode_name)
+        self.tokens.append((self.dnode, "$DNODE"))
         # longest / most specific first
         self.tokens.sort(key=lambda t: -len(t[0]))
 
@@ -330,6 +336,33 @@ def more_records(mat):
     return res
 
 
+def docker_record(mat):
+    """Rally's own node variables of a Docker-provisioned node (DockerProvisioner: the container's view) and what the compose
+    file has to say, given the start arguments."""
+    a = node_args(mat)[0]
+    nv = {
+        "cluster_name": S(a["cluster_name"]),
+        "node_name": S("rally-docker"),
+        "install_root_path": S(DOCKER_HOME),
+        "data_paths": L([DOCKER_HOME + "/data"]),
+        "log_path": S("/var/log/elasticsearch"),
+        "heap_dump_path": S(DOCKER_HOME + "/heapdump"),
+        "network_host": S("0.0.0.0"),
+        "discovery_type": S("single-node"),
+        "http_port": S(a["http_port"]),
+        "transport_port": S(a["http_port"] + 100),
+        "cluster_settings": S("{}"),
+    }
+    return {
+        "vars": nv,
+        "home": "$DNODE/install",
+        "es_version": "9.9.9",
+        "node_ip": a["ip"],
+        "http_port": str(a["http_port"]),
+        "volumes": [["$DNODE/data/UUID", DOCKER_HOME + "/data"], ["$DNODE/logs/server", "/var/log/elasticsearch"], ["$DNODE/heapdump", DOCKER_HOME + "/heapdump"]],
+    }
+
+
 def complete(inp, mat):
     """Adds what every real run needs (mandatory variables in every config base, bin/ in the archive, Rally's node record)."""
     inp = {
@@ -347,6 +380,7 @@ def complete(inp, mat):
         inp["shipped"].append({"path": ["bin", "elasticsearch"], "kind": "binary", "cid": "B4"})
     inp["node"] = node_record(inp, mat)
     inp["more"] = more_records(mat)
+    inp["docker"] = docker_record(mat)
     return inp
 
 
@@ -403,7 +437,56 @@ EMPTY_OUT = {
     "after": {"exists": {}, "same": False},
     "more": [],
     "varsAfter": {},
+    "docker": None,  # filled below
 }
+EMPTY_COMPOSE = {"image": "", "version": "", "ports": [], "volumes": [], "mounts": [], "health_port": "", "node_ip": "", "cpu": "-", "mem": "-"}
+EMPTY_DOCKER = {"err": "skipped", "final": {"captured": False, "vars": {}}, "tree": [], "compose": EMPTY_COMPOSE, "dataPaths": [], "home": ""}
+EMPTY_OUT["docker"] = EMPTY_DOCKER
+
+_UUID = re.compile(r"[0-9a-f]{8}-[0-9a-f]{4}-[0-9a-f]{4}-[0-9a-f]{4}-[0-9a-f]{12}")
+
+
+def _dtok(lay, s):
+    return _UUID.sub("UUID", lay.tok(str(s)))
+
+
+def project_compose(text, lay):
+    """docker-compose.yml as rendered from esrally/resources/docker-compose.yml.j2 -> what it says (no yaml module needed)."""
+    c = dict(EMPTY_COMPOSE, ports=[], volumes=[], mounts=[])
+    section = None
+    vols = []
+    for ln in text.splitlines():
+        st = ln.strip()
+        if st.endswith(":") and not st.startswith("-"):
+            section = st[:-1]
+            continue
+        m = re.match(r'image:\s*"(.*)"$', st)
+        if m:
+            img, _, ver = m.group(1).rpartition(":")
+            c["image"], c["version"] = img, ver
+        elif st.startswith("cpu_count:"):
+            c["cpu"] = st.split(":", 1)[1].strip()
+        elif st.startswith("mem_limit:"):
+            c["mem"] = st.split(":", 1)[1].strip()
+        elif st.startswith("test: nc -z 127.0.0.1"):
+            c["health_port"] = st.split()[-1]
+        elif st.startswith("com.docker.network.bridge.host_binding_ipv4:"):
+            c["node_ip"] = st.split(":", 1)[1].strip().strip('"')
+        elif st.startswith("- ") and section == "ports":
+            c["ports"].append(st[2:].strip().split(":"))
+        elif st.startswith("- ") and section == "volumes":
+            vols.append(st[2:].strip().split(":", 1))
+    for v in vols:
+        host = _dtok(lay, v[0])
+        dock = v[1] if len(v) > 1 else ""
+        if host.startswith("$DNODE/install/"):
+            rel = host[len("$DNODE/install/") :].split("/")
+            d = dock[len(DOCKER_HOME) + 1 :].split("/") if dock.startswith(DOCKER_HOME + "/") else ["?" + dock]
+            c["mounts"].append({"p": rel, "d": d})
+        else:
+            c["volumes"].append([host, dock])
+    c["mounts"].sort(key=lambda e: (e["p"], e["d"]))
+    return c
 
 
 def _final(captured, lay):
@@ -418,6 +501,45 @@ def _final(captured, lay):
 def _dps(node_config, lay):
     dps = node_config.data_paths
     return [lay.tok(str(x)) for x in dps] if isinstance(dps, (list, tuple)) else ["py:" + lay.tok(repr(dps))]
+
+
+def _docker(lay, car, a):
+    import copy
+
+    import esrally
+    from esrally import config, exceptions
+    from esrally.mechanic import provisioner
+
+    r = copy.deepcopy(EMPTY_DOCKER)
+    r["err"] = "none"
+    try:
+        cfg = config.Config()
+        cfg.add(config.Scope.application, "mechanic", "distribution.version", "9.9.9")
+        cfg.add(config.Scope.application, "mechanic", "cluster.name", a["cluster_name"])
+        cfg.add(config.Scope.application, "node", "rally.root", os.path.dirname(os.path.realpath(esrally.__file__)))
+        prov = provisioner.docker(cfg, car, a["ip"], a["http_port"], lay.race, lay.dnode_name)
+        cv = getattr(prov, "config_vars", None)
+        if isinstance(cv, dict):
+            r["final"] = {"captured": True, "vars": {str(k): _proj_val(v, lay, render=True) for k, v in cv.items()}}
+        nc = prov.prepare({"elasticsearch": None})
+    except exceptions.RallyError as e:
+        r["err"] = "prepare:" + type(e).__name__
+        return r
+    except Exception as e:  # pylint: disable=broad-except
+        r["err"] = "crash:prepare:" + type(e).__name__
+        return r
+    home = str(nc.binary_path)
+    tree = _tree(lay, home)
+    r["tree"] = [e for e in tree if e["path"] != ["docker-compose.yml"]]
+    try:
+        with open(os.path.join(home, "docker-compose.yml"), "r", encoding="utf-8") as fh:
+            r["compose"] = project_compose(fh.read(), lay)
+    except OSError:
+        r["err"] = "no-compose-file"
+    dps = nc.data_paths
+    r["dataPaths"] = [_dtok(lay, x) for x in dps] if isinstance(dps, (list, tuple)) else ["py:" + _dtok(lay, repr(dps))]
+    r["home"] = lay.tok(home)
+    return r
 
 
 def execute(root, inp, mat, archive_dir):
@@ -511,6 +633,8 @@ def execute(root, inp, mat, archive_dir):
             r["err"] = "crash:prepare:" + type(e).__name__
             more_cfg.append(None)
         out["more"].append(r)
+    # one more node from the same car, with the Docker provisioner (prepare only renders files; no docker needed)
+    out["docker"] = _docker(lay, car, args[0])
     # the composed car after every node has been provisioned from it
     out["varsAfter"] = {str(k): _proj_val(v, lay) for k, v in car.variables.items()}
     # the nodes have run: every candidate data directory, the logs and the installation contain something
